@@ -153,7 +153,7 @@ class TEBDWorld(World):
     NAME = "tebd"
     LEVEL = "exploration"
     SIM_TIME_UNIT = "physical evolution time (sum over evolutions)"
-    RUNS = {"quick": 3000, "thorough": 40000}
+    RUNS = {"quick": 6000, "thorough": 150000}
     WALL_CAP = {"quick": 900, "thorough": 3300}
     SHRINK_BUDGET = 80
     RULE = (
